@@ -10,6 +10,7 @@ import (
 	"sync"
 	"time"
 
+	"github.com/go-fed/activity/pub"
 	"github.com/go-fed/activity/streams"
 	"github.com/go-fed/activity/streams/vocab"
 )
@@ -88,6 +89,8 @@ var CallBudget = 100000
 // World is the whole simulated application state.
 type World struct {
 	mu sync.Mutex
+
+	handlers map[string]pub.HandlerFunc
 
 	LocalHosts  map[string]bool
 	Actors      map[string]*ActorSpec // by actor id
